@@ -44,6 +44,16 @@ Definition vis_of (o : sobs M) : vis :=
   match o with OState _ _ => VStep | ORaise _ => VRaise | OOut _ o => VOut o end.
 Definition outs (s : st M) (ops : list (sop M)) : list vis := map vis_of (behave M c s ops).
 
+(* the same, with the model record out of the way (for computing concrete examples) *)
+Definition results (l : list vis) : list (option (option (out M))) :=
+  map (fun v => match v with VStep => None | VRaise => Some None | VOut o => Some (Some o) end) l.
+Lemma results_injective : forall l l', results l = results l' -> l = l'.
+Proof.
+  induction l as [|v l IH]; intros [|v' l'] H; cbn in H; try discriminate; [reflexivity|].
+  injection H as Hv Hl. rewrite (IH l' Hl). destruct v, v'; try discriminate; try reflexivity.
+  injection Hv as ->. reflexivity.
+Qed.
+
 Lemma outs_nil s : outs s [] = [].
 Proof. reflexivity. Qed.
 Lemma outs_upd s b r : outs s (SUpd M b :: r) =
